@@ -54,8 +54,11 @@ with open("/verif/seeded/INDEX.md", "w") as fh:
     fh.write("\nRemoved after the F15 fix: C03-3 and C04-1 (the same edit as C18-2, written independently by three sub-agents: the offset calculation moved "
              "below the recompilation in `_update_fields`). Their demos relied on the dynamic-alignment path of the generator being wrong (F15); once that was "
              "repaired they no longer fail, so they are not kept. C18-2 still manifests and is reported by C18.R4 / C03.R10 / C04.R7.\n")
-    for label, sel in (("round 1", [r for r in rows if "-r2-" not in r[0] and "-r3-" not in r[0]]), ("round 2", [r for r in rows if "-r2-" in r[0]]),
-                       ("round 3", [r for r in rows if "-r3-" in r[0]]), ("all rounds", rows)):
+    for label, sel in (("round 1", [r for r in rows if "-r" not in r[0]]), ("round 2", [r for r in rows if "-r2-" in r[0]]),
+                       ("round 3", [r for r in rows if "-r3-" in r[0]]), ("round 4", [r for r in rows if "-r4-" in r[0]]), ("round 5", [r for r in rows if "-r5-" in r[0]]),
+                       ("all rounds", rows)):
+        if not sel:
+            continue
         t = sum(1 for r in sel if r[2] == "T"); o = sum(1 for r in sel if r[2] == "O"); now = sum(1 for r in sel if "missed" not in r[3])
         fh.write(f"\nTotals {label}: {len(sel)} confirmed changes; first run: {t} by the target check, {o} more only by another check, {len(sel)-t-o} by none; "
                  f"now: {now}/{len(sel)} by the target check.\n")
